@@ -514,6 +514,10 @@ func c29Gen(w *bufio.Writer, seed int64, tier string) {
 					if r.chance(4) {
 						c.ts, c.rel = r.pickS("a0", "a4611686018427387904", "a20000000000", "a18446744073709551615"), false
 					}
+					if r.chance(6) { // wrap points of seconds->nanoseconds arithmetic: k*2^64 ns = k*18446744073.7 s, 2^63 ns = 9223372036.85 s
+						base := []int64{18446744074, -18446744074, 36893488148, -36893488148, 55340232222, -55340232222, 9223372036, -9223372037}[r.intn(8)]
+						c.ts, c.rel = fmt.Sprintf("r%d", vnow+base+int64(r.pick(0, 1, -1, 2, -2))), false
+					}
 					if r.chance(40) {
 						c.sig = "valid"
 					}
